@@ -81,15 +81,12 @@ theorem structHdr_keys (m : Msg) : (structHdr m).map (·.1) = [kStatus, kMeta] :
 
 /-! ### codec id and message type -/
 
-/-- every codec id 0..255 comes back (fix THRIFT3). -/
-theorem codecOf_codecStr (c : UInt8) : codecOf (codecStr c) = c := rfl
+theorem codecOf_codecStr (c : UInt8) (h : c < 128) : codecOf (codecStr c) = c := by
+  simp [codecStr, h, codecOf]
 
-theorem codecOf_codecStrOld (c : UInt8) (h : c < 128) : codecOf (codecStrOld c) = c := by
-  simp [codecStrOld, h, codecOf]
-
-/-- before the fix: for an id ≥ 128 the first byte of `string(byte)` is the UTF-8 lead byte `0xC2` / `0xC3`. -/
-theorem codecOf_codecStrOld_high (c : UInt8) (h : ¬ c < 128) : codecOf (codecStrOld c) = (192 : UInt8) ||| (c >>> 6) := by
-  simp [codecStrOld, h, codecOf]
+/-- for an id ≥ 128 the first byte of `string(byte)` is the UTF-8 lead byte `0xC2` / `0xC3`. -/
+theorem codecOf_codecStr_high (c : UInt8) (h : ¬ c < 128) : codecOf (codecStr c) = (192 : UInt8) ||| (c >>> 6) := by
+  simp [codecStr, h, codecOf]
 
 theorem mtypeOf_typeOf (t : UInt8) (h : t = 1 ∨ t = 2 ∨ t = 3) : mtypeOf (typeOf t) = t := by
   rcases h with h | h | h <;> subst h <;> decide
@@ -131,10 +128,10 @@ structure Lawful (T : THeader) (fits : TFrame → Prop) : Prop where
 /-- thrift-binary's supported field set, found by running the real code: message type CALL / REPLY /
     PUSH, int32 status code, metadata without an (empty, empty) pair (an ORDERED MULTIMAP: it travels
     as one query string inside ONE header value, so repeated keys, their order, and keys equal to the
-    protocol's own header names are all preserved), at most 255 filters.  Service method, status text,
-    metadata, body and the body codec id (any of 0..255 since fix THRIFT3) are arbitrary. -/
+    protocol's own header names are all preserved), body codec id < 128 (`string(byte)`), at most 255
+    filters.  Service method, status text, metadata and body are arbitrary byte strings. -/
 def WFt (m : Msg) : Prop :=
-  (m.mtype = 1 ∨ m.mtype = 2 ∨ m.mtype = 3) ∧ Num.inInt32 m.status.code ∧ Args.WF m.md ∧
+  (m.mtype = 1 ∨ m.mtype = 2 ∨ m.mtype = 3) ∧ Num.inInt32 m.status.code ∧ Args.WF m.md ∧ m.codec < 128 ∧
   m.pipe.length ≤ 255
 
 instance (m : Msg) : Decidable (WFt m) := by unfold WFt Args.WF; infer_instance
@@ -228,11 +225,11 @@ theorem ofFrameBinary_binFrame (reg : Registry) (m : Msg) (b : Bytes) (h : HMap)
     (hb : Xfer.onPack reg m.pipe m.body = some b) (hs : SameHdr h (binHdr m)) :
     ofFrameBinary reg { name := m.method, typeID := typeOf m.mtype, seq := m.seq, payload := .bin b, hdr := h } b
       = .ok { m with size := 0 } := by
-  obtain ⟨hmt, hcode, hmd, hpl⟩ := hw
+  obtain ⟨hmt, hcode, hmd, hco, hpl⟩ := hw
   unfold ofFrameBinary
   simp only [ hs kStatus, hs kMeta, hs kPipe, hs kCodec, binHdr_status, binHdr_meta, binHdr_pipe,
     binHdr_codec, Status.decode_encode m.status hcode, Args.parse_query_wf m.md hmd, Raw.append_ok reg m.pipe hpl hl,
-    Raw.onUnpack_onPack reg m.pipe hl _ _ hb, Raw.ofOpt, Raw.bind_ok, codecOf_codecStr m.codec, mtypeOf_typeOf m.mtype hmt]
+    Raw.onUnpack_onPack reg m.pipe hl _ _ hb, Raw.ofOpt, Raw.bind_ok, codecOf_codecStr m.codec hco, mtypeOf_typeOf m.mtype hmt]
 
 theorem ofFrameStruct_structFrame (m : Msg) (h : HMap) (hw : WFs m) (hs : SameHdr h (structHdr m)) :
     ofFrameStruct { name := m.method, typeID := typeOf m.mtype, seq := m.seq, payload := .struct m.body, hdr := h } m.body
